@@ -22,6 +22,19 @@ def _icase_arg(call, what):
     return "IcMM", kws
 
 
+def _raising_handler(h, where):
+    """an extra except clause is accepted only when it cannot influence which terminal is built:
+    it never binds to_match / returns, and always ends by raising"""
+    need(h.type is not None, where + ": bare except clause")
+    need(h.body and isinstance(h.body[-1], ast.Raise), where + ": extra handler does not end with raise")
+    for st in h.body:
+        for n in ast.walk(st):
+            need(not isinstance(n, (ast.Return, ast.Yield, ast.YieldFrom, ast.Try, ast.NamedExpr)), where + ": extra handler returns or nests control flow")
+            if isinstance(n, (ast.Name, ast.Attribute)) and isinstance(getattr(n, "ctx", None), ast.Store):
+                need(isinstance(n, ast.Name) and n.id in ("line", "col"), where + ": extra handler assigns " + ast.unparse(n))
+        need(isinstance(st, (ast.Assign, ast.Raise)), where + ": extra handler statement " + type(st).__name__)
+
+
 def translate():
     tree, _ = parse_file("textx/lang.py")
     # ---------------------------------------------------------------- __init__: the detection regex
@@ -45,9 +58,14 @@ def translate():
     f = find_func(tree, "visit_str_match", "TextXVisitor")
     need(len(f.body) == 3, "visit_str_match: statement count changed")
     tr, guard, ret = f.body
-    need(isinstance(tr, ast.Try) and ast.unparse(tr) ==
-         "try:\n    to_match = children[0][1:-1]\n    if '\\\\' in to_match:\n        to_match = decode_escapes(to_match)\nexcept IndexError:\n    to_match = ''",
+    need(isinstance(tr, ast.Try) and not tr.orelse and not tr.finalbody and
+         "\n".join(ast.unparse(x) for x in tr.body) ==
+         "to_match = children[0][1:-1]\nif '\\\\' in to_match:\n    to_match = decode_escapes(to_match)",
          "visit_str_match: literal extraction changed")
+    need(len(tr.handlers) >= 1 and ast.unparse(tr.handlers[0]) == "except IndexError:\n    to_match = ''",
+         "visit_str_match: IndexError handler changed")
+    for h in tr.handlers[1:]:
+        _raising_handler(h, "visit_str_match")
     need(isinstance(guard, ast.If) and not guard.orelse, "visit_str_match: autokwd guard changed")
     gtest = ast.unparse(guard.test)
     need(gtest == "self.metamodel.autokwd", "visit_str_match: autokwd guard is `%s`" % gtest)
@@ -95,7 +113,10 @@ def translate():
          "visit_re_match: RegExMatch construction changed")
     re_ic, kws = _icase_arg(a1.value, "user RegExMatch")
     need(set(kws) <= {"ignore_case"}, "user RegExMatch: unexpected arguments %s" % sorted(kws))
-    need(isinstance(t2, ast.Try) and ast.unparse(t2.body[0]) == "regex.compile()" and len(t2.body) == 1, "visit_re_match: compile step changed")
+    need(isinstance(t2, ast.Try) and len(t2.body) == 1 and ast.unparse(t2.body[0]) == "regex.compile()" and not t2.orelse and not t2.finalbody,
+         "visit_re_match: compile step changed")
+    for h in t2.handlers:
+        _raising_handler(h, "visit_re_match")
     need(ast.unparse(r3) == "return regex", "visit_re_match: return changed")
 
     emit("SrcKw", "\n".join([
